@@ -219,6 +219,52 @@ def is_indices_param(e):
 ALLOWED_GUARDED_CALLS = ("::push", "::reserve", "matrix::MatrixCell::set", "::reconstruct_optimal_path", "::resize", "[T]>::len", "Vec::<T, A>::len")
 
 
+def _noid(e):
+    """expression without call-site identities (two inlined copies of one helper compare equal)"""
+    if not isinstance(e, tuple):
+        return e
+    if e and e[0] == "call":
+        return ("call", e[1], tuple(_noid(x) for x in e[2]))
+    if e and e[0] == "agg" and isinstance(e[2], dict):
+        return ("agg", e[1], {k: _noid(v) for k, v in sorted(e[2].items())})
+    return tuple(_noid(x) for x in e)
+
+
+def _twin_max_sources(fn):
+    """Both `Some(..)` results of a body generic over INDICES are `max of cell.score over a slice S`: True if the slices
+    are the same expression, a description of the difference if not, None if the shape is not recognised."""
+    srcs = []
+    for bi, si, rv in ret_aggregates(fn):
+        if rv.get("variant") != "Some":
+            continue
+        e = fn.expr_of_operand(rv["ops"][0])
+        mx = [x for x in walk(e) if x[0] == "call" and str(x[1]).rsplit("::", 1)[-1] in ("max", "max_by_key") and "Iterator" in str(x[1])]
+        if len(mx) != 1:
+            return None
+        it = [x for x in walk(mx[0][2][0]) if x[0] == "call" and str(x[1]).endswith("[T]>::iter")]
+        if len(it) != 1:
+            return None
+        if any(x[0] == "call" and str(x[1]).rsplit("::", 1)[-1] in ("rev", "skip", "take", "filter", "step_by", "skip_while", "take_while") for x in walk(mx[0][2][0])):
+            return None
+        srcs.append(_noid(strip_casts(it[0][2][0])))
+    if len(srcs) < 2:
+        return None
+    def same(a, b):
+        """structural equality; sub-expressions the expression builder cut off (`deep`) match anything"""
+        if isinstance(a, tuple) and a and a[0] == "deep":
+            return True
+        if isinstance(b, tuple) and b and b[0] == "deep":
+            return True
+        if isinstance(a, dict) and isinstance(b, dict):
+            return a.keys() == b.keys() and all(same(a[k], b[k]) for k in a)
+        if isinstance(a, tuple) and isinstance(b, tuple):
+            return len(a) == len(b) and all(same(x, y) for x, y in zip(a, b))
+        return a == b
+    if all(same(s_, srcs[0]) for s_ in srcs):
+        return True
+    return "%s vs %s" % (show(srcs[0])[:70], show(srcs[1])[:70])
+
+
 def rule_indices_guard(ctx):
     facts = ctx.facts
     nreg = 0
@@ -251,12 +297,40 @@ def rule_indices_guard(ctx):
                             continue
                         l = s["lhs"]["l"]
                         nm = fn.names.get(l)
+                        if not s["lhs"]["p"] and nm is not None and nm != "indices":
+                            # a named local that lives only inside this region (a `let` of the branch, the parameter of a
+                            # helper folded into it) is not state of the enclosing computation
+                            used_outside = False
+                            for u in uses_of_local(fn, l):
+                                ub = u[1]
+                                if ub not in region:
+                                    used_outside = True
+                            if not used_outside:
+                                continue
                         if s["lhs"]["p"] or (nm is not None and nm != "indices"):
                             problems.append("writes %s (`%s`)" % (show(fn.expr_of_place(s["lhs"])) if s["lhs"]["p"] else "_%d" % l, nm))
                     if tt["k"] == "return":
                         problems.append("returns from inside the INDICES branch")
-                if problems:
-                    ctx.violation(key, site(fn, bi), "code that runs only when INDICES is %s has an effect besides filling the indices vector: %s — the score of the indices variant can differ from the score-only variant" % ("true" if sb == t["otherwise"] else "false", "; ".join(sorted(set(problems))[:4])))
+                PURE = ("[T]>::iter", "[T]>::last", "[T]>::first", "[T]>::get", "::index", "Iterator::map", "Iterator::enumerate", "Iterator::max", "Iterator::max_by_key",
+                        "Iterator::min", "Iterator::rev", "Iterator::copied", "Iterator::cloned", "IntoIterator::into_iter", "::expect", "::unwrap", "Option::<T>::map",
+                        "cmp::max", "cmp::min", "From>::from", "::from", "::into", "Iterator::next", "Iterator::fold", "Iterator::zip", "Iterator::position")
+                soft = [p_ for p_ in problems if p_ == "returns from inside the INDICES branch" or (p_.startswith("calls ") and (any(p_.endswith(x) or x in p_ for x in PURE)))
+                        or (p_.startswith("writes _") and "(`None`)" in p_)]
+                hard = [p_ for p_ in problems if p_ not in soft]
+                # writes to unnamed temporaries are part of evaluating the pure calls
+                hard = [p_ for p_ in hard if not (p_.startswith("writes _") and p_.endswith("(`None`)"))]
+                if problems and not hard:
+                    verdict = _twin_max_sources(fn)
+                    if verdict is True:
+                        ctx.ok(site(fn, bi), "the INDICES = %s variant computes its score on a path of its own: both variants take the maximum cell score over the same slice" % ("true" if sb == t["otherwise"] else "false"))
+                    elif verdict is None:
+                        ctx.fail_closed("%s: the INDICES = %s variant computes a value of its own with read-only calls (%s): that the score-only and the indices variant "
+                                        "return the same score is not decided" % (fn.path, "true" if sb == t["otherwise"] else "false", "; ".join(sorted(set(problems))[:3])))
+                    else:
+                        ctx.violation(key + "|twin-source", site(fn, bi), "the score-only and the indices variant take their maximum over different cells: %s — fuzzy_match and fuzzy_indices "
+                                      "can return different scores for the same input (cells outside the last row hold shorter-prefix scores or leftovers of earlier calls)" % verdict)
+                elif problems:
+                    ctx.violation(key, site(fn, bi), "code that runs only when INDICES is %s has an effect besides filling the indices vector: %s — the score of the indices variant can differ from the score-only variant" % ("true" if sb == t["otherwise"] else "false", "; ".join(sorted(set(hard))[:4] + sorted(set(soft))[:2])))
                 else:
                     ctx.ok(site(fn, bi), "INDICES-only region touches nothing but the indices vector / back-pointer cells")
         # INDICES is forwarded unchanged to generic callees
